@@ -367,7 +367,7 @@ def compile_spec(a):
 
 
 class CompileEmitter(CopyEmitter):
-    properties = ('C03', 'C06')
+    properties = ('C03', 'C06', 'C07')
 
     def cases(self):
         return ['%s/%s/%s/%s/%s' % (p, n, f, h, d) for p in ('plain', 'uses-pch', 'pch-from-source')
@@ -713,6 +713,224 @@ class NinjaLink(LinkEmitter):
         return out
 
 
+# ---- which flag variable a step's own options are bound to ----------------------------------------------------
+#
+# Every compile / link step whose own option list is not empty binds the backend's flag variable of its kind to
+# [the global variable OF THE SAME KIND] + its own flags: compile flags behind the global compile flags, link flags
+# behind the global link flags, libraries behind the global libraries -- never one kind behind another (C01 / C02:
+# each option reaches the process once, in its position).  The backend's flags_vars is abstract: it returns a fresh
+# (global variable, variable) pair tagged with the name it was asked for.
+
+class GetFlags(StepEmitter):
+    properties = ('C01', 'C02', 'C03')
+
+    def make_tool(self, cx, kinds):
+        attrs = {'lang': 'c', 'family': 'native', 'global_flags': PList([thing('tool_global_flag')]),
+                 'global_libs': PList([thing('tool_global_lib')])}
+        for kind in kinds:
+            attrs[kind + '_var'] = kind + '-name'
+        attrs['flags'] = OpaqueFn('tool.flags', lambda I, a, k: PList([thing('global_option_flag')]))
+        attrs['lib_flags'] = OpaqueFn('tool.lib_flags', lambda I, a, k: PList([thing('global_option_lib')]))
+        return Obj(object, attrs)
+
+    def backend(self):
+        def flags_vars(I, args, kwargs):
+            name = args[0]
+            g, v = Obj(object, {'global_variable_for': name}), Obj(object, {'variable_for': name})
+            I.events.append(('flags_vars', name, g, v, args[1]))
+            return (g, v)
+
+        def var(I, args, kwargs):
+            return Obj(object, {'variable_named': args[0]})
+        return Obj(object, {'flags_vars': OpaqueFn('flags_vars', flags_vars), 'var': OpaqueFn('var', var)})
+
+    def own(self, present, name):
+        items = [thing(name + '0'), thing(name + '1')] if present else []
+        return OpaqueFn('rule.' + name, lambda I, a, k: PList(list(items))), items
+
+    def check_kind(self, out, a, variables, name, own_items, label):
+        regs = [e for e in a.events if e[0] == 'flags_vars' and e[1] == name]
+        if len(regs) != 1:
+            out[label + '_variable_registered_once'] = z3.BoolVal(False)
+            return
+        _, _, g, v, gvalue = regs[0]
+        # the global variable of a kind holds the tool's and the project's global options of that kind
+        tag = 'lib' if name.startswith('libs') else 'flag'
+        gitems = [str(x.e) for x in gvalue.items] if isinstance(gvalue, PList) and gvalue.concrete else None
+        out[label + '_global_variable_holds_the_global_options_of_its_kind'] = z3.BoolVal(
+            gitems == ['tool_global_' + tag, 'global_option_' + tag])
+        bound = variables.d.get(v) if isinstance(variables, PDict) else None
+        if not own_items:
+            out[label + '_default_kept_without_own_options'] = z3.BoolVal(bound is None)
+            return
+        items = list(bound.items) if isinstance(bound, PList) and bound.concrete else None
+        out[label + '_bound_to_the_global_variable_of_its_kind_plus_own_options'] = z3.BoolVal(
+            items is not None and len(items) == 1 + len(own_items) and items[0] is g and
+            all(x is y for x, y in zip(items[1:], own_items)))
+
+
+class CompileGetFlags(GetFlags):
+    target = 'bfg9000/builtins/compile.py::_get_flags'
+
+    def cases(self):
+        return ['own-options', 'no-own-options']
+
+    def params(self, cx, case):
+        fn, items = self.own(case == 'own-options', 'flags')
+        cx.ghost('own_flags', items)
+        rule = Obj(CO.CompileSource, {'compiler': self.make_tool(cx, ['flags']), 'flags': fn})
+        bi = PDict({'compile_options': PDict({'c': thing('global_options')})})
+        return {'backend': self.backend(), 'rule': rule, 'build_inputs': bi, 'buildfile': Obj(object, {})}
+
+    def opaque_calls(self):
+        return {}
+
+    def ensures(self, a, r):
+        out = {}
+        variables = r[0] if isinstance(r, tuple) else (r.items[0] if isinstance(r, PList) else None)
+        self.check_kind(out, a, variables, 'flags-name', a.own_flags, 'compile_flags')
+        return out
+
+
+class LinkGetFlags(GetFlags):
+    target = 'bfg9000/builtins/link.py::_get_flags'
+
+    def cases(self):
+        return ['%s/%s' % (f, l) for f in ('flags', 'no-flags') for l in ('libs', 'no-libs')]
+
+    def params(self, cx, case):
+        f, l = case.split('/')
+        ffn, fitems = self.own(f == 'flags', 'flags')
+        lfn, litems = self.own(l == 'libs', 'lib_flags')
+        cx.ghost('own_flags', fitems)
+        cx.ghost('own_libs', litems)
+        rule = Obj(LK.DynamicLink, {'linker': self.make_tool(cx, ['flags', 'libs']), 'flags': ffn, 'lib_flags': lfn,
+                                    'base_mode': 'dynamic'})
+        bi = PDict({'link_options': PDict({'dynamic': PDict({'native': thing('global_link_options')})})})
+        return {'backend': self.backend(), 'rule': rule, 'build_inputs': bi, 'buildfile': Obj(object, {})}
+
+    def opaque_calls(self):
+        return {}
+
+    def ensures(self, a, r):
+        out = {}
+        variables = r[0] if isinstance(r, tuple) else (r.items[0] if isinstance(r, PList) else None)
+        self.check_kind(out, a, variables, 'flags-name', a.own_flags, 'link_flags')
+        self.check_kind(out, a, variables, 'libs-name', a.own_libs, 'libraries')
+        return out
+
+
+# ---- install / uninstall goals -----------------------------------------------------------------------------------
+#
+# One description for both backends: the `install` goal exists iff there is something to do (files to copy or packages
+# to deploy), depends on `all`, is always out of date and runs the file commands followed by the package deployment;
+# the `uninstall` goal exists iff files were installed and runs exactly the removal commands; nothing is emitted when
+# installation is disabled.
+
+import bfg9000.builtins.install as INS
+
+
+class InstallRule(StepEmitter):
+    properties = ('C06', 'C15')
+
+    def cases(self):
+        return ['%s/%s/%s/%s' % (e, f, m, u) for e in ('enabled', 'disabled') for f in ('files', 'no-files')
+                for m in ('packages', 'no-packages') for u in ('uninstall', 'no-uninstall')]
+
+    def params(self, cx, case):
+        e, f, m, u = case.split('/')
+        cx.ghost('enabled', e == 'enabled')
+        cx.ghost('file_cmds', [thing('install_cmd0'), thing('install_cmd1')] if f == 'files' else [])
+        cx.ghost('pkg_cmds', [thing('deploy_cmd')] if m == 'packages' else [])
+        cx.ghost('rm_cmds', [thing('rm_cmd')] if u == 'uninstall' else [])
+        return {'build_inputs': PDict({'install': thing('install_outputs')}), 'buildfile': self.buildfile(), 'env': Obj(object, {})}
+
+    def common_calls(self):
+        a = self.cur
+        return {INS.can_install: self.rec('can_install', lambda I, x, k: bool(a.enabled)),
+                INS._install_files: self.rec('install_files', lambda I, x, k: PList(list(a.file_cmds))),
+                INS._uninstall_files: self.rec('uninstall_files', lambda I, x, k: PList(list(a.rm_cmds))),
+                INS._install_mopack: self.rec('install_mopack', lambda I, x, k: PList(list(a.pkg_cmds))),
+                INS._add_install_paths: self.rec('add_paths')}
+
+    def describe(self, a):
+        install = list(a.file_cmds) + list(a.pkg_cmds)
+        return {'install': install if a.enabled and install else None,
+                'uninstall': list(a.rm_cmds) if a.enabled and a.rm_cmds else None,
+                'paths': bool(a.enabled and (a.file_cmds or a.rm_cmds))}
+
+    def compare(self, a, goals):
+        """goals: {name: (commands list or None, depends_on, always_outdated)} as emitted"""
+        want = self.describe(a)
+        out = {}
+        for g in ('install', 'uninstall'):
+            got = goals.get(g)
+            if want[g] is None:
+                out[g + '_goal_only_when_there_is_something_to_do'] = z3.BoolVal(got is None)
+                continue
+            ok = got is not None and got[0] is not None and len(got[0]) == len(want[g]) and \
+                all(x is y for x, y in zip(got[0], want[g]))
+            out[g + '_goal_runs_exactly_its_commands_in_order'] = z3.BoolVal(bool(ok))
+            if got is not None:
+                out[g + '_goal_always_out_of_date'] = z3.BoolVal(got[2] is True)
+                if g == 'install':
+                    out['install_goal_depends_on_all'] = z3.BoolVal(got[1] == ['all'])
+        paths = [e for e in a.events if e[0] == 'add_paths']
+        out['install_directories_defined_iff_files_are_installed_or_removed'] = z3.BoolVal((len(paths) == 1) == want['paths'] and len(paths) <= 1)
+        return out
+
+
+class MakeInstallRule(InstallRule):
+    target = 'bfg9000/builtins/install.py::make_install_rule'
+
+    def buildfile(self):
+        return Obj(msyn.Makefile, {})
+
+    def opaque_calls(self):
+        d = self.common_calls()
+        d[msyn.Makefile.__dict__['rule']] = self.rec('rule')
+        return d
+
+    def ensures(self, a, r):
+        goals = {}
+        for e in a.events:
+            if e[0] != 'rule':
+                continue
+            kw = e[2]
+            rec_ = kw.get('recipe')
+            cmds = list(rec_.items) if isinstance(rec_, PList) and rec_.concrete else None
+            deps = kw.get('deps')
+            goals[kw.get('target')] = (cmds, [deps] if isinstance(deps, str) else deps, kw.get('phony'))
+        return self.compare(a, goals)
+
+
+class NinjaInstallRule(InstallRule):
+    target = 'bfg9000/builtins/install.py::ninja_install_rule'
+
+    def buildfile(self):
+        return Obj(nsyn.NinjaFile, {})
+
+    def opaque_calls(self):
+        import bfg9000.shell as shell
+        d = self.common_calls()
+        d[njw.command_build] = self.rec('build')
+        d[shell.join_lines] = self.rec('join_lines', lambda I, x, k: Obj(object, {'lines_of': x[0]}))
+        return d
+
+    def ensures(self, a, r):
+        goals = {}
+        for e in a.events:
+            if e[0] != 'build':
+                continue
+            kw = e[2]
+            c = kw.get('command')
+            lines = c.attrs.get('lines_of') if isinstance(c, Obj) else None
+            cmds = list(lines.items) if isinstance(lines, PList) and lines.concrete else None
+            inp = kw.get('inputs')
+            goals[kw.get('output')] = (cmds, list(inp.items) if isinstance(inp, PList) and inp.concrete else inp, kw.get('phony'))
+        return self.compare(a, goals)
+
+
 def registry():
     return [MakeCommand(), NinjaCommand(), MakeCopyFile(), NinjaCopyFile(), CompdbCopyFile(), MakeCompile(), NinjaCompile(),
-            MakeLink(), NinjaLink()]
+            MakeLink(), NinjaLink(), CompileGetFlags(), LinkGetFlags(), MakeInstallRule(), NinjaInstallRule()]
